@@ -209,6 +209,14 @@ package gojq
 //@ axiom cmpv_arr: forall a, b []any :: {fd(a, b)} cmpv(a, b) ==
 //@     ((fd(a, b) < min(len(a), len(b))) ? cmpv(a[fd(a, b)], b[fd(a, b)]) : sign(len(a) - len(b)))
 
+// Order laws. ASSUMED here (they are what the property claims; proving them from the axioms above
+// by induction on value depth is not done): on NaN-free values (inD) the order is antisymmetric
+// and transitive. They are used only by the consumers below (min/max).
+//@ spec func inD(v any) bool reads HE_any HMD_string_any HMV_string_any HML_string_any
+//@ axiom inD_float: forall a any :: {inD(a)} inD(a) && (a is float64) ==> !isNaN(a.(float64))
+//@ axiom cmpv_antisym: forall a, b any :: {cmpv(a, b), inD(a), inD(b)} inD(a) && inD(b) ==> cmpv(a, b) == -cmpv(b, a)
+//@ axiom cmpv_trans: forall a, b, c any :: {cmpv(a, b), cmpv(b, c), inD(a), inD(c)} inD(a) && inD(b) && inD(c) && cmpv(a, b) <= 0 && cmpv(b, c) <= 0 ==> cmpv(a, c) <= 0
+
 //@ func typeIndex(v any) (r int)
 //@   property C11
 //@   ensures r == rank(v)
@@ -591,3 +599,74 @@ package gojq
 //@   ensures fresh(s) && len(s) == l && cap(s) == max(l, c) && (a != nil ==> owned(s))
 //@   ensures forall r int :: {ownedref(r)} r <= oldalloc() ==> ownedref(r) == old(ownedref(r))
 //@   ensures forall k :: {s[k]} 0 <= k && k < l ==> s[k] == nil
+
+// ---------------------------------------------------------------------------------------
+// C11: consumers of the order
+// ---------------------------------------------------------------------------------------
+
+// == != < <= > >= are the projections of the one order.
+//@ func funcOpEq(_, l, r any) (x any)
+//@   property C11
+//@   ensures (x is bool) && x.(bool) == (cmpv(l, r) == 0)
+//@ func funcOpNe(_, l, r any) (x any)
+//@   property C11
+//@   ensures (x is bool) && x.(bool) == (cmpv(l, r) != 0)
+//@ func funcOpGt(_, l, r any) (x any)
+//@   property C11
+//@   ensures (x is bool) && x.(bool) == (cmpv(l, r) > 0)
+//@ func funcOpLt(_, l, r any) (x any)
+//@   property C11
+//@   ensures (x is bool) && x.(bool) == (cmpv(l, r) < 0)
+//@ func funcOpGe(_, l, r any) (x any)
+//@   property C11
+//@   ensures (x is bool) && x.(bool) == (cmpv(l, r) >= 0)
+//@ func funcOpLe(_, l, r any) (x any)
+//@   property C11
+//@   ensures (x is bool) && x.(bool) == (cmpv(l, r) <= 0)
+
+// min_by picks the first minimal key, max_by the last maximal one.
+//@ func minMaxBy(vs, xs []any, isMin bool) (r any)
+//@   property C11
+//@   using cmpv_range cmpv_antisym cmpv_trans
+//@   requires len(vs) == len(xs)
+//@   requires forall k :: {inD(xs[k])} 0 <= k && k < len(xs) ==> inD(xs[k])
+//@   loop 1 invariant 1 <= i && i <= len(xs) && 0 <= j && j < i && x == xs[j]
+//@   loop 1 invariant isMin ==> (forall k :: {cmpv(xs[j], xs[k])} 0 <= k && k < i ==> cmpv(xs[j], xs[k]) <= 0)
+//@   loop 1 invariant !isMin ==> (forall k :: {cmpv(xs[j], xs[k])} j < k && k < i ==> cmpv(xs[j], xs[k]) > 0)
+//@   ensures len(vs) == 0 ==> r == nil
+//@   ensures len(vs) > 0 && isMin ==> exists m :: 0 <= m && m < len(vs) && r == vs[m] && (forall k :: {cmpv(xs[m], xs[k])} 0 <= k && k < len(xs) ==> cmpv(xs[m], xs[k]) <= 0)
+//@   ensures len(vs) > 0 && !isMin ==> exists m :: 0 <= m && m < len(vs) && r == vs[m] && (forall k :: {cmpv(xs[m], xs[k])} m < k && k < len(xs) ==> cmpv(xs[m], xs[k]) > 0)
+
+// sort, sort_by, group_by, unique, unique_by: the items are sorted by a STABLE sort whose less is
+// exactly the order on the keys (the permutation itself is sort.SliceStable's assumed contract).
+//@ func sortItems$1(i, j int) (b bool)
+//@   property C11
+//@   requires 0 <= i && i < len(items) && 0 <= j && j < len(items) && items[i] != nil && items[j] != nil
+//@   ensures b == (cmpv(items[i].key, items[j].key) < 0)
+
+//@ func sortItems(name string, v, x any) (items []*sortItem, err error)
+//@   property C11
+//@   modifies *
+//@   ensures err == nil ==> sortedflag(items) == 2 && (v is []any) && len(items) == len(v.([]any))
+
+// indices: only positions where the whole needle fits.
+//@ func indices(vs, xs []any) (r any)
+//@   property C11
+//@   using cmpv_range
+//@   loop 1 invariant 0 <= i && i + len(xs) <= len(vs)
+//@   loop 1 invariant forall k :: {rs[k]} 0 <= k && k < len(rs) ==> (rs[k] is int) && 0 <= rs[k].(int) && rs[k].(int) + len(xs) <= len(vs)
+//@   ensures (r is []any) && forall k :: {r.([]any)[k]} 0 <= k && k < len(r.([]any)) ==> (r.([]any)[k] is int) && 0 <= r.([]any)[k].(int) && r.([]any)[k].(int) + len(xs) <= len(vs)
+
+// C14: length of a string is its number of code points.
+//@ func funcLength(v any) (r any)
+//@   property C14 C10
+//@   modifies BIG
+//@   ensures forall p *big.Int :: {bigval(p)} p <= oldalloc() ==> bigval(p) == old(bigval(p))
+//@   ensures (v is string) ==> (r is int) && r.(int) == rcount(v.(string))
+//@   ensures (v is int) ==> exact(r) && numval(r) == abs(v.(int))
+//@   ensures (v is []any) ==> (r is int) && r.(int) == len(v.([]any))
+
+// C03: float to int conversion only inside the representable range, saturation outside.
+//@ func floatToInt(x float64) (r int)
+//@   property C03
+//@   ensures (flit(14114281232179134464) <= x && x < flit(4890909195324358656)) || r == MaxInt || r == MinInt
